@@ -30,6 +30,15 @@ def units(tier, seed):
             for pis in chunks:
                 us.append({'name': f'derive {g} objects={ostates[oi]}', 'fn': 'unit_derive',
                            'args': {'tier': tier, 'oi': oi, 'group': g, 'pis': pis, 'n': 3 if g == 'binary' else 1, 'm': 1}})
+    if tier == 'quick':
+        from .c13 import quick3_states
+        ois, pis = quick3_states()
+        o3 = defs.ordered_subsets(universes('quick3')[0])
+        for oi in ois:
+            for g in ('unary', 'take', 'binary'):
+                for pi in pis:
+                    us.append({'name': f'derive {g} objects={o3[oi]} (3x3 universe)', 'fn': 'unit_derive',
+                               'args': {'tier': 'quick3', 'oi': oi, 'group': g, 'pis': [pi], 'n': 4 if g != 'unary' else 1, 'm': 1}})
     us.sort(key=lambda u: -u['args']['n'])
     t = _mk.QUICK_TABLES if tier == 'quick' else _mk.THOROUGH_TABLES
     us += gen.kernel_units(t)
@@ -73,10 +82,16 @@ def unit_derive(args, prefix=(), max_depth=None):
                 no, np_ = defs.rep_names(O, UO, FO[:1]), defs.rep_names(P, UP, FP[:1])
                 olists = [None] + [l for l in defs.short_lists(no) if len(l) < 2 or tier == 'quick' or l[0] != l[1]][:12]
                 plists = [None] + [l for l in defs.short_lists(np_)][:8]
+                if tier == 'quick3':     # two kept names in both relative orders, three names rotated, a repeat
+                    olists = [None, [O[1], O[0]], [O[0], O[2]], [O[2], O[0]], [O[1], O[2], O[0]], [O[2], O[2], O[1]]] if len(O) == 3 else olists[:6]
+                    plists = [None, [P[-1], P[0]], [P[0], P[-1]], list(reversed(P))] if len(P) >= 2 else plists[:4]
                 insts = [('take', (ol, pl, ro)) for ol in olists for pl in plists for ro in (False, True)]
             else:
                 others_o = [list(x) for x in defs.ordered_subsets(UO + FO[:1]) if len(x) <= 2][::2] + [list(reversed(UO))]
                 others_p = [list(x) for x in defs.ordered_subsets(UP + FP[:1]) if len(x) <= 2][1::2] + [list(reversed(UP))]
+                if tier == 'quick3':
+                    others_o = [list(reversed(UO)), [UO[2], UO[0]], [UO[1], FO[0], UO[0]]]
+                    others_p = [list(reversed(UP)), [UP[2], UP[0]], [UP[1]]]
                 for O2 in others_o:
                     for P2 in others_p:
                         for name in ('union', 'intersection'):
